@@ -247,6 +247,9 @@ where
         let first_fill = rops.iter().position(|e| e.op == "rng_fill");
         let last_rekey = rops.iter().rposition(|e| e.op == "rekey");
         job.check("the RNG is finalized with 32 bytes of the caller's randomness, after all rekeying and before the first nonce", fin.len() == 1 && rops[fin[0]].data.len() == 32 && first_fill.map(|f| f > fin[0]).unwrap_or(true) && last_rekey.map(|r| r < fin[0]).unwrap_or(true), String::new());
+        // the 32 finalisation bytes are the caller's RNG output itself (not a digest or a prefix of it)
+        let ext = crate::r1cs::ext_log();
+        job.check("the finalisation bytes are the first 32 bytes handed out by the caller's RNG", fin.len() == 1 && ext.len() >= 32 && rops[fin[0]].data == ext[..32].to_vec(), format!("{} bytes drawn from the caller's RNG", ext.len()));
         // built after the commitment count was absorbed and before A_I1
         let main: Vec<&merlin::vlog::Event> = log.iter().filter(|e| e.obj == run.prover_obj).collect();
         let bpos = main.iter().position(|e| e.op == "build_rng");
